@@ -274,6 +274,9 @@ mod metrics;
 #[cfg(feature = "metrics")]
 pub use metrics::MetricsSnapshot;
 
+#[cfg(feature = "verif-hooks")]
+pub mod verif_hooks;
+
 mod actor_ref;
 pub use actor_ref::{ActorRef, ActorWeak};
 
